@@ -108,7 +108,14 @@ def make_program(model: Dict[str, Any], cfg_seed: int, identity: bool = False) -
     merge_first = identity or cs.chance(0.5)
     mops = [{"op": "merge", "master": m, "slave": s} for m, s in merges]
     aops = [{"op": "add", "target": n} for n in order]
-    ops += (mops + aops) if merge_first else (aops + mops)
+    late = (not identity) and cs.chance(0.3)
+    if late and mops:
+        # the mesh was assembled once before some of the pairs were declared; it is cleared and
+        # assembled again (connectivity must be that of the model as it stands at the last assembly)
+        cut = cs.randrange(len(mops))
+        ops += mops[:cut] + aops + [{"op": "assemble"}] + mops[cut:] + [{"op": "clear"}]
+    else:
+        ops += (mops + aops) if merge_first else (aops + mops)
     ops.append({"op": "assemble"})
     ops.append({"op": "write", "path": DICT_PATH})
     return {"ops": ops}
